@@ -393,6 +393,15 @@ fn solve_generic_multi(
     let pool = ThreadPoolBuilder::new()
         .num_threads(num_threads.get())
         .build()?;
+    #[cfg(feature = "verif")]
+    for (kind, infos) in [crate::verif::KIND_ONE, crate::verif::KIND_TWO]
+        .into_iter()
+        .zip(player_infosets.iter())
+    {
+        for (index, info) in infos.iter().enumerate() {
+            crate::verif::sync::label_one(&info.cum_strat, kind, index);
+        }
+    }
     pool.scope(|_| {
         let mut queue = Vec::with_capacity(target.get());
         let mut work = Vec::with_capacity(target.get());
@@ -558,6 +567,12 @@ pub(crate) fn solve_sampled_multi(
         .iter()
         .map(|info| Mutex::new(SampledChance::new(info.probs())))
         .collect();
+    #[cfg(feature = "verif")]
+    let chance_infosets: Box<[Mutex<SampledChance>]> = {
+        let table: Box<[Mutex<SampledChance>]> = chance_infosets;
+        crate::verif::sync::label(&table, crate::verif::KIND_CHANCE);
+        table
+    };
     solve_generic_multi(
         start,
         chance_infosets,
